@@ -5,9 +5,8 @@ import SquidModel.Properties.C15
 #print axioms SquidModel.C15.parts_inside_object
 #print axioms SquidModel.C15.honoured_wire_exact
 #print axioms SquidModel.C15.content_length_exact
-#print axioms SquidModel.C15.ignored_wire_char
-#print axioms SquidModel.C15.ignored_wire_full_partial
-#print axioms SquidModel.C15.ignored_wire_counterexample
+#print axioms SquidModel.C15.ignored_wire_full
+#print axioms SquidModel.C15.prefix_variant_ignored_wire_counterexample
 #print axioms SquidModel.C15.decision_never_packs_non200_or_limited_miss
 #print axioms SquidModel.C15.merging_disabled
 #print axioms SquidModel.C15.serveStored_sound
